@@ -513,8 +513,15 @@ class RawFileSystem(FileSystem[str]):
     def _resolve_path(self, path: str) -> str:
         """Get the absolute path."""
         abs_path = os.path.abspath(os.path.join(self.path, path))
-        if self.constrain_path and not abs_path.startswith(self.path):
-            raise RootEscapeError(self.path, path)
+        if self.constrain_path:
+            # Compare whole path components, a plain prefix check would accept a sibling
+            # folder like "root_other" for the root "root".
+            try:
+                inside = os.path.commonpath([self.path, abs_path]) == self.path
+            except ValueError:  # Different drives.
+                inside = False
+            if not inside:
+                raise RootEscapeError(self.path, path)
         return abs_path
 
     def walk_folder(self, folder: str = '') -> Iterator[File[Self]]:
